@@ -98,3 +98,76 @@ package protocol
 //@   ensures nonnil: result != nil
 //@ func (*ReportSignature).Bytes
 //@   requires wf: resp.Signature != nil
+
+// ---- losslessness (C16): every encoder is proved against a field-wise spec over the codec spec functions of
+// /verif/contracts/ext/codecs.spec, every decoder against the inverse spec; decode(encode(m)) = m then follows from
+// the inverse axioms (lemma /verif/contracts/theory/c16_roundtrip.smt2).
+
+//@ func newG1ElementFromString
+//@   modifies g1v
+//@   ensures dec-total: isHexS(s) && isG1Bytes(unhexS(s)) ==> err == nil
+//@   ensures dec: err == nil ==> result0 != nil && fresh(result0) && g1v[result0] == g1OfBytes(unhexS(s))
+//@   ensures frame: forall p int :: p != result0 ==> g1v[p] == old(g1v[p])
+//@ func newG2ElementFromString
+//@   modifies g2v
+//@   ensures dec-total: isHexS(s) && isG2Bytes(unhexS(s)) ==> err == nil
+//@   ensures dec: err == nil ==> result0 != nil && fresh(result0) && g2v[result0] == g2OfBytes(unhexS(s))
+//@   ensures frame: forall p int :: p != result0 ==> g2v[p] == old(g2v[p])
+
+//@ func (*RequestQualities).Msg
+//@   ensures enc: result.TaskID == uuidS(req.TaskID) && result.Challenge == hashS(req.Challenge) && result.ParentTarget == hexS(bigBytes(bigv[req.ParentTarget])) && result.ParentSlot == req.ParentSlot && result.Height == req.Height
+//@ func (*RequestQualities).SetMsg
+//@   modifies req.TaskID, req.Challenge, req.ParentTarget, req.ParentSlot, req.Height, bigv
+//@   ensures dec-total: isUUIDS(msg.TaskID) && isHashS(msg.Challenge) && isHexS(msg.ParentTarget) ==> err == nil
+//@   ensures dec: err == nil ==> req.TaskID == uuidP(msg.TaskID) && req.Challenge == hashP(msg.Challenge) && req.ParentTarget != nil && bigv[req.ParentTarget] == bigOfBytes(unhexS(msg.ParentTarget)) && req.ParentSlot == msg.ParentSlot && req.Height == msg.Height
+
+//@ func (*Quality).Msg
+//@   ensures enc: result.SpaceID == q.WorkSpaceQuality.SpaceID && result.PublicKey == hexS(g1Bytes(g1v[q.WorkSpaceQuality.PublicKey])) && result.PoolPublicKey == hexS(g1Bytes(g1v[q.WorkSpaceQuality.PoolPublicKey])) && result.Index == q.WorkSpaceQuality.Index && result.KSize == q.WorkSpaceQuality.KSize && result.Quality == hexS(bytesval(q.WorkSpaceQuality.Quality)) && result.PlotID == hexS(bytesval(q.WorkSpaceQuality.PlotID)) && result.Slot == q.Slot
+//@ func (*Quality).SetMsg
+//@   modifies q.WorkSpaceQuality, q.Slot, g1v
+//@   ensures dec-total: isHexS(msg.PublicKey) && isG1Bytes(unhexS(msg.PublicKey)) && isHexS(msg.PoolPublicKey) && isG1Bytes(unhexS(msg.PoolPublicKey)) && isHexS(msg.Quality) && isHashS(msg.PlotID) ==> err == nil
+//@   ensures dec: err == nil ==> wfQuality(q) && q.WorkSpaceQuality.SpaceID == msg.SpaceID && g1v[q.WorkSpaceQuality.PublicKey] == g1OfBytes(unhexS(msg.PublicKey)) && g1v[q.WorkSpaceQuality.PoolPublicKey] == g1OfBytes(unhexS(msg.PoolPublicKey)) && q.WorkSpaceQuality.Index == msg.Index && q.WorkSpaceQuality.KSize == msg.KSize && bytesval(q.WorkSpaceQuality.Quality) == unhexS(msg.Quality) && q.WorkSpaceQuality.PlotID == hashP(msg.PlotID) && q.Slot == msg.Slot && q.WorkSpaceQuality.Error == nil
+
+//@ func (*RequestProof).Msg
+//@   modifies nothing
+//@   ensures nonnil: result != nil
+//@   ensures enc: result.TaskID == uuidS(req.TaskID) && result.Height == req.Height && result.SpaceID == req.SpaceID && result.Challenge == hashS(req.Challenge) && result.Index == req.Index
+//@ func (*RequestProof).SetMsg
+//@   modifies req.TaskID, req.Height, req.SpaceID, req.Challenge, req.Index
+//@   ensures dec-total: isUUIDS(msg.TaskID) && isHashS(msg.Challenge) ==> err == nil
+//@   ensures dec: err == nil ==> req.TaskID == uuidP(msg.TaskID) && req.Height == msg.Height && req.SpaceID == msg.SpaceID && req.Challenge == hashP(msg.Challenge) && req.Index == msg.Index
+
+//@ func (*Proof).Msg
+//@   ensures enc: result.SpaceID == p.SpaceID && result.Challenge == hexS(bytesval(p.Proof.Challenge)) && result.PoolPublicKey == hexS(g1Bytes(g1v[p.Proof.PoolPublicKey])) && result.PlotPublicKey == hexS(g1Bytes(g1v[p.Proof.PlotPublicKey])) && result.KSize == p.Proof.KSize && result.Proof == hexS(bytesval(p.Proof.Proof))
+//@ func (*Proof).SetMsg
+//@   modifies p.SpaceID, p.Proof, p.PublicKey, p.Ordinal, g1v
+//@   ensures dec-total: isHashS(msg.Challenge) && isHexS(msg.PoolPublicKey) && isG1Bytes(unhexS(msg.PoolPublicKey)) && isHexS(msg.PlotPublicKey) && isG1Bytes(unhexS(msg.PlotPublicKey)) && isHexS(msg.Proof) ==> err == nil
+//@   ensures dec: err == nil ==> wfProof(p) && p.SpaceID == msg.SpaceID && p.Proof.Challenge == hashP(msg.Challenge) && g1v[p.Proof.PoolPublicKey] == g1OfBytes(unhexS(msg.PoolPublicKey)) && g1v[p.Proof.PlotPublicKey] == g1OfBytes(unhexS(msg.PlotPublicKey)) && p.Proof.KSize == msg.KSize && bytesval(p.Proof.Proof) == unhexS(msg.Proof) && p.PublicKey == p.Proof.PlotPublicKey
+
+//@ func (*RequestSignature).Msg
+//@   modifies nothing
+//@   ensures nonnil: result != nil
+//@   ensures enc: result.TaskID == uuidS(req.TaskID) && result.Height == req.Height && result.SpaceID == req.SpaceID && result.Hash == hexS(bytesval(req.Hash))
+//@ func (*RequestSignature).SetMsg
+//@   modifies req.TaskID, req.Height, req.SpaceID, req.Hash
+//@   ensures dec-total: isUUIDS(msg.TaskID) && isHashS(msg.Hash) ==> err == nil
+//@   ensures dec: err == nil ==> req.TaskID == uuidP(msg.TaskID) && req.Height == msg.Height && req.SpaceID == msg.SpaceID && req.Hash == hashP(msg.Hash)
+
+//@ func (*ReportSignature).Msg
+//@   ensures enc: result.TaskID == uuidS(resp.TaskID) && result.SpaceID == resp.SpaceID && result.Hash == hexS(bytesval(resp.Hash)) && result.Signature == hexS(g2Bytes(g2v[resp.Signature]))
+//@ func (*ReportSignature).SetMsg
+//@   modifies resp.TaskID, resp.SpaceID, resp.Hash, resp.Signature, g2v
+//@   ensures dec-total: isUUIDS(msg.TaskID) && isHashS(msg.Hash) && isHexS(msg.Signature) && isG2Bytes(unhexS(msg.Signature)) ==> err == nil
+//@   ensures dec: err == nil ==> resp.TaskID == uuidP(msg.TaskID) && resp.SpaceID == msg.SpaceID && resp.Hash == hashP(msg.Hash) && resp.Signature != nil && g2v[resp.Signature] == g2OfBytes(unhexS(msg.Signature))
+
+//@ func (*ReportProof).Msg
+//@   ensures enc: result.TaskID == uuidS(resp.TaskID) && result.Proof != nil
+//@ func (*ReportProof).SetMsg
+//@   ensures dec: err == nil ==> resp.TaskID == uuidP(msg.TaskID) && wfProof(resp.Proof)
+//@ func (*ReportQualities).SetMsg
+//@   loop i invariant count: len(qualities) == #rangeindex + 1
+//@   ensures dec: err == nil ==> resp.TaskID == uuidP(msg.TaskID) && len(resp.Qualities) == len(msg.Qualities)
+//@ func NewProof
+//@   ensures wf: err == nil ==> wfProof(result0)
+//@ func NewQuality
+//@   ensures wf: err == nil ==> wfQuality(result0)
